@@ -37,11 +37,14 @@ func (srv *Server) Authenticate(next http.Handler) http.Handler {
 	return http.HandlerFunc(func(w http.ResponseWriter, r *http.Request) {
 		w.Header().Set("Content-Type", hap.HTTPContentTypeHAPJson)
 		sess := srv.context.GetSessionForRequest(r)
-		if sess == nil {
+		if sess == nil || sess.Encrypter() == nil {
+			// Only connections which were switched to an encrypted session
+			// (after a successful pair verify) are allowed to access the endpoint.
 			w.WriteHeader(470) // this custom status code indicates an error
 			if err := WriteJSON(w, r, &ErrResponse{Status: hap.StatusInsufficientPrivileges}); err != nil {
 				log.Debug.Println(err)
 			}
+			return
 		}
 
 		next.ServeHTTP(w, r)
